@@ -362,6 +362,32 @@ static void do_dfio(Cur& c, std::ostream& o)
   o << " B "; show_hex(o, b2.data(), b2.size());
 }
 
+// restore an identifier that was never registered
+static void do_cpmiss(Cur& c, std::ostream& o)
+{
+  typedef Kinds<double, std::uint64_t> K;
+  String missing(unhex(c.str()));
+  Index n = c.idx();
+  std::vector<std::unique_ptr<K::DV>> dvs(n);
+  std::vector<std::unique_ptr<K::CSR>> csrs(n);
+  Dist::Comm comm = Dist::Comm::world();
+  Control::CheckpointControl cp(comm);
+  for(Index i = 0; i < n; ++i)
+  {
+    String nm(unhex(c.str())); std::string kind = c.str();
+    if(kind == "dv") { dvs[i].reset(new K::DV(K::dv(c))); cp.add_object(nm, *dvs[i]); }
+    else { csrs[i].reset(new K::CSR(K::csr(c))); cp.add_object(nm, *csrs[i]); }
+  }
+  BinaryStream bs;
+  cp.save(bs);
+  Control::CheckpointControl cq(comm);
+  bs.seekg(0);
+  cq.load(bs);
+  K::DV r;
+  cq.restore_object(missing, r, false);
+  o << "RESTORED "; dump(o, r);
+}
+
 static void handle(const verif::Tokens& t, std::ostream& o)
 {
   // runs in the forked child: FEAT prints some warnings to std::cout, which must not reach the result stream
@@ -397,6 +423,10 @@ static void handle(const verif::Tokens& t, std::ostream& o)
   else if(op == "dfio")
   {
     do_dfio(c, o);
+  }
+  else if(op == "cpmiss")
+  {
+    do_cpmiss(c, o);
   }
   else if(op == "cpx")
   {
